@@ -58,6 +58,9 @@ class Tr:
             return e.id
         if isinstance(e, ast.Attribute) and isinstance(e.value, ast.Name) and e.value.id == "self":
             return "self." + e.attr
+        if isinstance(e, ast.Attribute) and isinstance(e.value, ast.Attribute) and isinstance(e.value.value, ast.Name) \
+                and e.value.value.id == "self" and ("self." + e.value.attr + "." + e.attr) in self.env:
+            return "self." + e.value.attr + "." + e.attr
         return None
 
     def expr(self, e):
@@ -125,6 +128,20 @@ class Tr:
             if not e.keys:
                 return ("(@nil (positive * Z))", "dict")
             raise Unrecognised("dict display")
+        if isinstance(e, ast.Set):                                   # {*a, *b, c}: a union, written as the concatenation
+            parts = []
+            for x in e.elts:
+                if isinstance(x, ast.Starred):
+                    v, k = self.expr(x.value)
+                    if k != "set":
+                        raise Unrecognised(f"* of {k} in a set display")
+                    parts.append(v)
+                else:
+                    v, k = self.expr(x)
+                    if k != "pos":
+                        raise Unrecognised(f"{k} in a set display")
+                    parts.append(f"[{v}]")
+            return ("(" + " ++ ".join(parts) + ")", "set")
         if isinstance(e, ast.List) and not e.elts:
             return ("(@nil (positive * Z))", "pairs")
         if isinstance(e, (ast.SetComp, ast.ListComp, ast.GeneratorExp, ast.DictComp)):
@@ -226,6 +243,15 @@ class Tr:
                     raise Unrecognised("ComponentPort of other than a component and a port")
                 return (f"({a}, {b})", "cport")
             if f.id in ("SimTime", "ComponentID", "PortID") and len(e.args) == 1:     # NewType constructors
+                a0 = e.args[0]
+                if isinstance(a0, ast.Constant) and isinstance(a0.value, str):
+                    if a0.value in self.env.get("<strings>", {}):
+                        return (self.env["<strings>"][a0.value], "pos")
+                    raise Unrecognised(f"string {a0.value!r}")
+                return self.expr(a0)
+            if f.id in ("Changes", "Map") and not e.keywords and len(e.args) <= 1:        # immutable wrappers of a mapping
+                if not e.args:
+                    return ("(@nil (positive * Z))", "dict")
                 return self.expr(e.args[0])
             if f.id == "DeviceUpdate" and len(e.args) == 2:
                 a, ka = self.expr(e.args[0])
@@ -273,9 +299,14 @@ class Tr:
             elif isinstance(s, ast.Expr) and isinstance(s.value, ast.Call) and isinstance(s.value.func, ast.Attribute) \
                     and s.value.func.attr in ("append", "add"):
                 tgs = [self.base_of(s.value.func.value)]
+            elif isinstance(s, ast.Expr) and isinstance(s.value, ast.Call) and isinstance(s.value.func, ast.Attribute) \
+                    and s.value.func.attr in ("update", "clear"):
+                tgs = [self.base_of(s.value.func.value)]
+            elif isinstance(s, ast.Delete) and len(s.targets) == 1:
+                tgs = [self.base_of(s.targets[0])]
             elif isinstance(s, ast.Expr) and isinstance(s.value, ast.Subscript):
                 tgs = [self.base_of(s.value)]
-            elif isinstance(s, ast.For):
+            elif isinstance(s, (ast.For, ast.If)):
                 tgs = self.assigned(s.body)
             for tg in tgs:
                 if tg and tg not in out:
@@ -291,7 +322,7 @@ class Tr:
         return self.name_of(e), idx
 
     def bind(self, name, kind):
-        coq = name.replace("self.", "self_").lstrip("_") if not name.startswith("self.") else "self_" + name[5:].lstrip("_")
+        coq = name.replace("self.", "self_").lstrip("_") if not name.startswith("self.") else "self_" + name[5:].lstrip("_").replace(".", "_")
         if name.startswith("self.") and name[5:] not in self.mutated:
             self.mutated.append(name[5:])
         self.env[name] = (coq, kind)
@@ -311,6 +342,13 @@ class Tr:
             return ret(s.value)
         if isinstance(s, ast.AnnAssign) and s.value is not None:
             s = ast.Assign(targets=[s.target], value=s.value)
+        if isinstance(s, ast.Assign) and len(s.targets) == 1 and isinstance(s.targets[0], ast.Tuple) and isinstance(s.value, ast.Call) \
+                and ast.unparse(s.value) == "self.get_first_wakeups()" and len(s.targets[0].elts) == 2 \
+                and all(isinstance(x, ast.Name) for x in s.targets[0].elts) and "self.wakeups" in self.env:
+            a, b = (x.id for x in s.targets[0].elts)               # the translated method of the same class hierarchy
+            ca = "_" if a == "_" else self.bind(a, "set")
+            cb = "_" if b == "_" else self.bind(b, "optZ")
+            return f"let '({ca}, {cb}) := gen_get_first_wakeups {self.env['self.wakeups'][0]} in\n  {self.block(rest, ret)}"
         # ---- nested default dictionaries of Model/Wiring.v
         if isinstance(s, ast.Expr) and isinstance(s.value, ast.Subscript):               # wiring[c]: creates the entry
             n, idx = self.subscripts(s.value)
@@ -381,6 +419,65 @@ class Tr:
                 raise Unrecognised(f"append of {kv} to {kl}")
             c = self.bind(n, "pairs")
             return f"let {c} := {l} ++ [{v}] in\n  {self.block(rest, ret)}"
+        if isinstance(s, ast.Expr) and isinstance(s.value, ast.Call) and isinstance(s.value.func, ast.Attribute) \
+                and s.value.func.attr == "update" and len(s.value.args) == 1:              # a_set.update(another)
+            n = self.name_of(s.value.func.value)
+            a, ka = self.expr(s.value.func.value)
+            b, kb = self.expr(s.value.args[0])
+            if (ka, kb) != ("set", "set"):
+                raise Unrecognised(f"{ka}.update({kb})")
+            c = self.bind(n, "set")
+            return f"let {c} := {a} ++ {b} in\n  {self.block(rest, ret)}"
+        if isinstance(s, ast.Expr) and isinstance(s.value, ast.Call) and isinstance(s.value.func, ast.Attribute) \
+                and s.value.func.attr == "clear" and not s.value.args:
+            n = self.name_of(s.value.func.value)
+            a, ka = self.expr(s.value.func.value)
+            if ka != "set":
+                raise Unrecognised(f"{ka}.clear()")
+            c = self.bind(n, "set")
+            return f"let {c} := (@nil positive) in\n  {self.block(rest, ret)}"
+        if isinstance(s, ast.Delete) and len(s.targets) == 1 and isinstance(s.targets[0], ast.Subscript):      # del d[k]
+            n = self.name_of(s.targets[0].value)
+            d, kd = self.expr(s.targets[0].value)
+            i, ki = self.expr(s.targets[0].slice)
+            if (kd, ki) != ("dict", "pos"):
+                raise Unrecognised(f"del {kd}[{ki}]")
+            c = self.bind(n, "dict")
+            return f"let {c} := remove_key {i} {d} in\n  {self.block(rest, ret)}"
+        if isinstance(s, ast.If) and not s.orelse and not any(isinstance(x, ast.Return) for x in ast.walk(s)):
+            c, kc = self.expr(s.test)
+            if kc != "bool":
+                raise Unrecognised("if on a non-boolean")
+            acc = self.assigned(s.body)
+            if not acc or any(n not in self.env for n in acc):
+                raise Unrecognised("conditional assigns nothing / an uninitialised variable")
+            before = [self.env[n] for n in acc]
+            inner = Tr(self.env)
+            inner.mutated = self.mutated
+            then = inner.block(s.body, lambda v: "(" + ", ".join(inner.env[n][0] for n in acc) + ")")
+            pat = "(" + ", ".join(cq for cq, _ in before) + ")"
+            for n, (cq, k) in zip(acc, before):
+                self.bind(n, k)
+            if len(acc) == 1:
+                return f"let {before[0][0]} := if {c} then {then} else {before[0][0]} in\n  {self.block(rest, ret)}"
+            return f"let '{pat} := if {c} then {then} else {pat} in\n  {self.block(rest, ret)}"
+        if isinstance(s, ast.For) and not s.orelse and isinstance(s.target, ast.Name):      # for x in a_set
+            it, kit = self.expr(s.iter)
+            if kit != "set":
+                raise Unrecognised(f"for <name> over {kit}")
+            acc = self.assigned(s.body)
+            if not acc or any(n not in self.env for n in acc):
+                raise Unrecognised("loop body assigns nothing / an uninitialised variable")
+            before = [self.env[n] for n in acc]
+            inner = Tr(self.env)
+            inner.mutated = self.mutated
+            inner.env[s.target.id] = (s.target.id, "pos")
+            body = inner.block(s.body, lambda v: "(" + ", ".join(inner.env[n][0] for n in acc) + ")")
+            pat = "(" + ", ".join(cq for cq, _ in before) + ")" if len(acc) > 1 else before[0][0]
+            for n, (cq, k) in zip(acc, before):
+                self.bind(n, k)
+            q = "'" if len(acc) > 1 else ""
+            return f"let {q}{pat} := fold_left (fun {q}{pat} {s.target.id} =>\n      {body}) {it} {pat} in\n  {self.block(rest, ret)}"
         if isinstance(s, ast.If) and not s.orelse and isinstance(s.body[-1], ast.Return):
             c, kc = self.expr(s.test)
             if kc != "bool":
@@ -431,9 +528,11 @@ def translate(spec):
     env = {}
     args = []
     for f, k in spec.get("fields", {}).items():
-        c = "self_" + f.lstrip("_")
+        c = "self_" + f.lstrip("_").replace(".", "_")
         env["self." + f] = (c, k)
         args.append((c, k))
+    if "strings" in spec:
+        env["<strings>"] = spec["strings"]
     if "cls_kind" in spec:
         env["cls"] = ({"w": "(@nil (comp * list (port * list cport)))", "iw": "(@nil (comp * list (port * cport)))"}[spec["cls_kind"]], spec["cls_kind"])
     declared = [a.arg for a in fn.args.args if a.arg not in ("self", "cls")]
@@ -452,6 +551,17 @@ def translate(spec):
     body = fn.body
     if "extract" in spec:
         return spec["extract"](tr, fn, args, spec)
+    if "until_await" in spec:
+        # the part of an async method before (or after) its one await: the state it leaves, and the named locals
+        idx = [i for i, st in enumerate(body) if any(isinstance(x, ast.Await) for x in ast.walk(st))]
+        if len(idx) != 1:
+            raise Unrecognised(f"{len(idx)} awaiting statements")
+        if ast.unparse(body[idx[0]]) != spec["await_is"]:
+            raise Unrecognised(f"the awaiting statement is {ast.unparse(body[idx[0]])!r}")
+        if spec["until_await"] == "before":
+            body = body[:idx[0]] + [ast.Return(value=ast.Tuple(elts=[ast.Name(id=x, ctx=ast.Load()) for x in spec["outputs"]], ctx=ast.Load()))]
+        else:
+            body = body[idx[0] + 1:]
 
     result_kind = []
     wrap = set()        # positions of a returned tuple where one return has None and another an integer: Optional[int]
@@ -561,6 +671,18 @@ SPECS = [
          name="gen_from_wiring", cls_kind="iw", params={"wiring": "w"}),
     dict(section="route", file="core/management/event_router.py", cls="EventRouter", func="route",
          name="gen_route", fields={"wiring": "w"}, params={"source": "pos", "changes": "dict"}),
+    dict(section="nested_prologue", file="core/management/schedulers/nested.py", cls="NestedScheduler", func="on_tick",
+         name="gen_nested_prologue",
+         fields={"wakeups": "dict", "interrupts": "set", "_initial_tick_done": "bool", "ticker.components": "set",
+                 "input_changes": "dict", "output_changes": "dict"},
+         params={"time": "Z", "changes": "dict"}, strings={"external": "ext_id", "expose": "exp_id"},
+         until_await="before", await_is="await self.ticker(time, root_components)", outputs=["root_components"]),
+    dict(section="nested_epilogue", file="core/management/schedulers/nested.py", cls="NestedScheduler", func="on_tick",
+         name="gen_nested_epilogue",
+         fields={"wakeups": "dict", "interrupts": "set", "_initial_tick_done": "bool", "ticker.components": "set",
+                 "input_changes": "dict", "output_changes": "dict"},
+         params={"time": "Z", "changes": "dict"}, strings={"external": "ext_id", "expose": "exp_id"},
+         until_await="after", await_is="await self.ticker(time, root_components)"),
     dict(section="iobox_write", file="devices/iobox.py", cls="IoBoxDevice", func="write", name="gen_iobox_write",
          fields={"_memory": "dict", "_change_buffer": "pairs"}, params={"addr": "pos", "value": "Z"}),
     dict(section="iobox_read", file="devices/iobox.py", cls="IoBoxDevice", func="read", name="gen_iobox_read",
@@ -572,7 +694,7 @@ SPECS = [
 
 def main():
     parts = ["(* GENERATED by harness/gen_funs.py from the tickit sources -- do not edit *)",
-             "From TV Require Import Base Model.PyLib Model.Wiring.", "Open Scope Z_scope.", ""]
+             "From TV Require Import Base Model.PyLib Model.Wiring Model.Component Model.Sim.", "Open Scope Z_scope.", ""]
     notes = []
     for spec in SPECS:
         try:
